@@ -302,10 +302,6 @@ theorem lookup_objSet_ne (k k' : String) (v : Json) (l : List (String × Json)) 
       · simp [h2]
       · simp [h2, ih]
 
-/-- `v` is an example of the (merged) subschema in the OpenAPI 3 reading: its `example`, or an item of `examples` -/
-def InExamples (acc : List (String × Json)) (v : Json) : Prop :=
-  ∃ vs, Json.lookup "examples" acc = some (.arr vs) ∧ v ∈ vs
-
 theorem mergeKey_keeps_example (acc : List (String × Json)) (kv : String × Json) (v : Json)
     (h : Json.lookup "example" acc = some v) : Json.lookup "example" (mergeKey acc kv) = some v := by
   unfold mergeKey
@@ -381,10 +377,6 @@ theorem foldl_mergeKey_keeps_examples (kvs acc : List (String × Json)) (v : Jso
   induction kvs generalizing acc with
   | nil => exact h
   | cons kv rest ih => exact ih _ (mergeKey_keeps_examples acc kv v h)
-
-/-- a later allOf item contributes `v` as its `example` or as an item of its `examples` list -/
-def Contributes (kvs : List (String × Json)) (v : Json) : Prop :=
-  ("example", v) ∈ kvs ∨ ∃ ws, ("examples", Json.arr ws) ∈ kvs ∧ v ∈ ws
 
 theorem foldl_mergeKey_adds (kvs acc : List (String × Json)) (v : Json) (h : Contributes kvs v) :
     InExamples (kvs.foldl mergeKey acc) v := by
@@ -668,5 +660,64 @@ theorem dropHeaders_eq (bad : List String) (ps : Containers) :
   apply List.map_congr_left
   intro kc _
   split <;> simp_all
+
+/-! ### helper lemmas of the property theorems -/
+
+theorem paramCombos_carry (ps : Params) (c n : String) (x : Json) (h : HasP ps c n x) :
+    ∃ j, ∃ hj : j < (paramCombos ps).length, ∀ b, Carries ((paramCombos ps)[j]) b (.param c n x) := by
+  obtain ⟨vars, h1, vs, h2, hx⟩ := h
+  obtain ⟨j, hj, hjx⟩ := List.getElem_of_mem hx
+  have hc := lookupC_mem c ps vars h1
+  have hn := lookupC_mem n vars vs h2
+  have hle : vs.length ≤ maxLen ps := maxLen_ge ps (c, vars) hc (n, vs) hn
+  have hj' : j < (paramCombos ps).length := by simp [paramCombos]; omega
+  refine ⟨j, hj', fun b => ?_⟩
+  have hget : (paramCombos ps)[j] = comboAt ps j := by simp [paramCombos]
+  rw [hget]
+  refine ⟨vars.map fun nv => (nv.1, (cycleGet nv.2 j).getD .null), ?_, ?_⟩
+  · have := lookupC_map (fun (vars : Variants) => vars.map fun nv => (nv.1, (cycleGet nv.2 j).getD Json.null)) c ps
+    simp only [comboAt]
+    rw [this, h1]; rfl
+  · have := lookupC_map (fun (vs : List Json) => (cycleGet vs j).getD Json.null) n vars
+    rw [this, h2]
+    simp only [Option.map_some, cycleGet_lt vs j hj, hjx, Option.getD_some]
+
+theorem bodyCombos_mem (bs : Variants) (mt : String) (v : Json) (h : HasV bs mt v) : (mt, v) ∈ bodyCombos bs := by
+  obtain ⟨vs, h1, hv⟩ := h
+  have := lookupC_mem mt bs vs h1
+  simp only [bodyCombos, List.mem_flatMap, List.mem_map]
+  exact ⟨(mt, vs), this, v, hv, rfl⟩
+
+theorem topValues_extracted (srcs : List Source) (s : Source) (hs : s ∈ srcs) (v : Json) (hv : v ∈ topValues s) :
+    s.mk' v ∈ extractTopLevel srcs := by
+  simp only [extractTopLevel, List.mem_flatMap, List.mem_map]
+  exact ⟨s, hs, v, hv, rfl⟩
+
+theorem Declared_not_bool (ef esf : String) (b : Bool) (path : List Seg) (v : Json) :
+    ¬ Declared ef esf (.bool b) path v := by
+  intro h
+  cases h <;> simp_all [Json.get?]
+
+theorem Carries_dropHeaders (bad : List String) (ps : Containers) (b : Option (String × Json)) (e : Example)
+    (h : Carries ps b e) (hok : ∀ n v, e = .param "headers" n v → n ∉ bad) :
+    Carries (dropHeaders bad ps) b e := by
+  cases e with
+  | body v mt => exact h
+  | param c n v =>
+    obtain ⟨cont, h1, h2⟩ := h
+    rw [dropHeaders_eq]
+    have hm := lookupC_mapk (fun k (c : Container) =>
+      if k == "headers" then c.filter (fun nv => !bad.contains nv.1) else c) c ps
+    rw [h1] at hm
+    refine ⟨_, hm, ?_⟩
+    by_cases hc : c = "headers"
+    · subst hc
+      have hn : n ∉ bad := hok n v rfl
+      simp only [BEq.rfl, if_true]
+      rw [lookupC_filter_key (fun k => !bad.contains k) n cont (by simp [hn])]
+      exact h2
+    · have : (c == "headers") = false := by simp [hc]
+      simp only [this, Bool.false_eq_true, if_false]
+      exact h2
 
 end SV.Proofs.C17
